@@ -15,7 +15,7 @@ def gen_pair(rng):
     nv = rng.randint(1, 4)
     vs = gen.VARS[:nv]
     mode = rng.choice(["unrelated", "weakening", "farkas", "equal", "separated", "unbounded", "empty_left", "empty_right",
-                       "sublist", "self"])
+                       "sublist", "self", "empty_left_constant_row", "sublist_of_right", "chain"])
     p = gen.rand_point(rng, vs)
     A = [gen.rand_term(rng, vs, "dyadic", point=p) for _ in range(rng.randint(1, 4))]
     if mode == "unrelated":
@@ -41,6 +41,22 @@ def gen_pair(rng):
     elif mode == "empty_right":
         t = gen.rand_term(rng, vs, "dyadic")
         B = [t, ({v: -a for v, a in t[0].items()}, -t[1] - F(rng.randint(1, 8), 4))]
+    elif mode == "empty_left_constant_row":
+        # the left side is infeasible only through a variable-free false row (what a rename that cancels coefficients leaves behind)
+        A = A + [({}, F(rng.choice([-1, -2])))] + ([({}, F(rng.choice([0, 3])))] if rng.random() < 0.5 else [])
+        rng.shuffle(A)
+        B = [gen.rand_term(rng, vs, "dyadic") for _ in range(rng.randint(1, 2))]
+    elif mode == "sublist_of_right":
+        # every term of the LEFT occurs verbatim in the right, which adds a really restricting term: the left is the WEAKER one
+        B = list(A) + [gen.rand_term(rng, vs, "dyadic", point=gen.rand_point(rng, vs))]
+        rng.shuffle(B)
+    elif mode == "chain" and nv >= 2:
+        # the bound on the right side's variable passes through a link variable the right side does not mention
+        x, y = vs[0], vs[1]
+        c1, c2 = F(rng.randint(-2, 3)), F(rng.randint(-2, 3))
+        A = [({x: F(1), y: F(-1)}, c1), ({y: F(1)}, c2)] + ([gen.rand_term(rng, vs[2:], "dyadic")] if nv > 2 and rng.random() < 0.5 else [])
+        rng.shuffle(A)
+        B = [({x: F(1)}, c1 + c2 + F(rng.choice([0, 0, 1, -1]), 2))]
     elif mode == "sublist":
         B = rng.sample(A, rng.randint(1, len(A)))
     else:
